@@ -3,6 +3,7 @@ package engb
 import (
 	"encoding/json"
 	"fmt"
+	"testing/synctest"
 
 	"github.com/orda-io/orda/client/pkg/model"
 	"github.com/orda-io/orda/client/pkg/orda"
@@ -167,6 +168,12 @@ func (r *run) docOp(doc orda.DocumentInTx, e Ev) error {
 			_, er2 := doc.PutToObject("arr", []interface{}{})
 			if er2 != nil {
 				return er2
+			}
+			if !r.inTx {
+				// two library calls in one event: let the delivery goroutine a realtime client starts for the
+				// first one reach the transport before the second call is made (otherwise what its pack
+				// holds depends on the Go scheduler)
+				synctest.Wait()
 			}
 			arr, er = doc.GetFromObject("arr")
 			if er != nil || arr == nil {
